@@ -22,6 +22,9 @@ fn main() {
         "C04" => checks::c04::run(&mut rep),
         "C05" => checks::c05::run(&mut rep),
         "C06" => checks::c06::run(&mut rep),
+        "C07" => checks::c07::run(&mut rep),
+        "C08" => checks::c08::run(&mut rep),
+        "C14" => checks::c14::run(&mut rep),
         "C15" => checks::c15::run(&mut rep),
         _ => {
             eprintln!("unknown property id {id}");
